@@ -104,9 +104,11 @@ def run(r):
         "primitives are abstract in the no-residue theorems (any psem); the lens theorems are about the reference semantics of Model/Prims.v + Model/Under.v, tied to the implementation only by the search's index-array oracle",
         "uiua::verif::depths / take_stacks report the interpreter's hidden stacks faithfully",
     ]
-    r.assumptions += ["G has no context effect of its own and lies in the frame theorem's fragment (tree_okb: no switch; operands of fork/bracket/try carry no context effect)",
+    r.assumptions += ["G has no context effect of its own and lies in the frame theorem's fragment (tree_okb: stored operand signatures fit; operands of iterating modifiers, fork, bracket and try carry no context effect)",
                       "the stack is deep enough for the three stages (under_depth)",
-                      "lens laws: arrays are well-formed (length data = product shape), indices in range, G keeps the shape"]
+                      "lens laws: arrays are well-formed (length data = product shape), indices in range, G keeps the shape",
+                      "templates with context operations inside operands of rows / fork / bracket are outside the no-residue theorem (for rows the effect is per row): counted, covered by the residue search",
+                      "lossy reshape (`Cannot unreshape`) and positional selectors on map arrays other than list keep / reverse / select / rotate are outside the law (first, last, deshape and scalar keep drop the keys; take and drop refuse maps)"]
     if not r.harness(["c04"]):
         return
     r.proofs()
@@ -137,7 +139,12 @@ def run(r):
     r.coverage["evaluations"] = npairs + s.get("evaluations", 0) + s.get("failure_injection_runs", 0)
     r.coverage["distinct_nontrivial"] = npairs + s.get("identity_checked", 0)
     r.coverage["rule"] = ("V: every catalogue F (take, drop, select, pick, first, last, keep, rotate, reverse, transpose, deshape, reshape, rerank, "
-                          "fix, sort, rise, fall, classify, deduplicate, where, map get/remove/insert, partition/group with box, and rows/dip/both/"
-                          "fork/bracket/on/sequence of the positional ones) x g-signatures |1.1 |2.1 |1.2 |2.2; search: generated arrays of every "
-                          "element type, rank up to 3, in-range indices; a failure injected before/between/after every step of G and a "
-                          "shape-changing G, plain, inside fill and inside another under")
+                          "fix, subscripted rows, sort, rise, fall, classify, deduplicate, where, map get/remove/insert (absent and existing key), partition/group "
+                          "with box, and rows/dip/both/on of every positional one plus seeded fork/bracket/sequence pairs) x g-signatures |1.1 |2.1 |1.2 |2.2: "
+                          "under_balancedb evaluated by Coq on the real under_inverse output, and the compiler's ⍜F G compared with before;G;after; "
+                          "search: regression programs of repaired defects first (switch selector under an under-condition, undo keep/select on empty rows, "
+                          "subscripted rows, under insert/remove/get on maps, undo keep with raised rank, list keep/reverse/select/rotate on maps), then "
+                          "generated arrays of every element type, rank up to 3, in-range indices: ⍜F∘ x = x, the index-array oracle for ⍜F G on numeric arrays, "
+                          "residue after success; a failure injected before/between/after every step of G and a shape-changing G, each plain, inside fill "
+                          "and inside the G of an enclosing under, caught by a handler: the handler must see the original arguments, no context value may be "
+                          "left, no later step may fail, and an under run afterwards must work")
